@@ -541,6 +541,15 @@ MUTANTS = [
 ''', new='''                        self.reset_buffered_state();
                     }
 '''),
+    dict(id="c10-cancel-object-removes-target", prop="C10", file="src/client.rs", expect="C10-R2",
+         what="D27 again: the cancel-request object removes the target's entry when dropped",
+         old='''        if !self.cancel_mode {
+            let mut guard = self.client_server_map.lock();
+            guard.remove(&(self.process_id, self.secret_key));
+        }''', new='''        {
+            let mut guard = self.client_server_map.lock();
+            guard.remove(&(self.process_id, self.secret_key));
+        }'''),
     # ------------------------------------------------------------------ C12
     dict(id="c12-raw-value", prop="C12", file="src/server.rs", expect="C12-R2",
          what="value interpolated without escaping again",
